@@ -11,15 +11,15 @@ package nsqlookupd
 // thresholds (inactive-producer timeout, tombstone lifetime) are symbolic, so the solver decides
 // the time-dependent part of every answer for all clocks and all settings at once.
 //
-// Time in the oracle: the code reads the clock somewhere inside an operation. The harness notes
-// the latest reading the monotone model clock had handed out before the operation started and
-// the latest after it returned (verifrt.LastNow - no extra clock variables), so the model knows
-// every instant the operation used only up to an interval [lo,hi]. A producer MUST be listed when it qualifies for
+// Time in the oracle: the code reads the clock somewhere inside an operation. The harness reads
+// the same monotone model clock immediately before and after each time-relevant operation, so
+// the model knows every instant the operation used only up to an interval [lo,hi]. A producer MUST be listed when it qualifies for
 // every instant in the intervals, MUST NOT be listed when it is disqualified for every instant,
 // and is unconstrained in between (the intervals collapse when the solver picks equal readings,
 // so exact threshold behaviour - <= versus < - is still pinned).
 
 import (
+	"encoding/json"
 	"io"
 	"net"
 	"net/http"
@@ -28,7 +28,6 @@ import (
 
 	"github.com/nsqio/nsq/internal/http_api"
 	"github.com/nsqio/nsq/internal/lg"
-	"github.com/nsqio/nsq/internal/protocol"
 	"github.com/nsqio/nsq/internal/verifrt"
 )
 
@@ -106,14 +105,37 @@ type verifC14Addr struct{ s string }
 func (a verifC14Addr) Network() string { return "tcp" }
 func (a verifC14Addr) String() string  { return a.s }
 
-// verifC14Conn: a connection whose peer has gone away (every read is EOF).
+// verifC14Conn: the nsqd side of one TCP connection. The real IOLoop of the connection runs in
+// its own goroutine; whenever it asks for more input it first reports "idle" (everything sent
+// so far has been processed and answered), then waits for the next chunk of the stream; closing
+// `in` is the peer hanging up.
 type verifC14Conn struct {
-	addr   string
-	out    []byte
-	closed int
+	addr    string
+	in      chan []byte
+	ev      chan int // 1 = waiting for input, 2 = IOLoop has returned
+	pending []byte
+	out     []byte
+	closed  int
 }
 
-func (c *verifC14Conn) Read(p []byte) (int, error)         { return 0, io.EOF }
+const (
+	verifC14Idle = 1
+	verifC14Gone = 2
+)
+
+func (c *verifC14Conn) Read(p []byte) (int, error) {
+	if len(c.pending) == 0 {
+		c.ev <- verifC14Idle
+		b, ok := <-c.in
+		if !ok {
+			return 0, io.EOF
+		}
+		c.pending = b
+	}
+	n := copy(p, c.pending)
+	c.pending = c.pending[n:]
+	return n, nil
+}
 func (c *verifC14Conn) Write(p []byte) (int, error)        { c.out = append(c.out, p...); return len(p), nil }
 func (c *verifC14Conn) Close() error                       { c.closed++; return nil }
 func (c *verifC14Conn) LocalAddr() net.Addr                { return verifC14Addr{"127.0.0.1:4160"} }
@@ -121,6 +143,37 @@ func (c *verifC14Conn) RemoteAddr() net.Addr               { return verifC14Addr
 func (c *verifC14Conn) SetDeadline(t time.Time) error      { return nil }
 func (c *verifC14Conn) SetReadDeadline(t time.Time) error  { return nil }
 func (c *verifC14Conn) SetWriteDeadline(t time.Time) error { return nil }
+
+// takeFrame removes and returns the next response frame (4-byte big-endian size + data) that
+// the server has written to the connection; ok=false if there is no complete frame.
+func (c *verifC14Conn) takeFrame() (data []byte, ok bool) {
+	if len(c.out) < 4 {
+		return nil, false
+	}
+	n := int(c.out[0])<<24 | int(c.out[1])<<16 | int(c.out[2])<<8 | int(c.out[3])
+	if n < 0 || len(c.out) < 4+n {
+		return nil, false
+	}
+	data = c.out[4 : 4+n]
+	c.out = c.out[4+n:]
+	return data, true
+}
+
+// listener stub: IDENTIFY's answer reports the daemon's own ports
+type verifC14Listener struct{ port int }
+
+func (l verifC14Listener) Accept() (net.Conn, error) { return nil, io.EOF }
+func (l verifC14Listener) Close() error              { return nil }
+func (l verifC14Listener) Addr() net.Addr            { return &net.TCPAddr{Port: l.port} }
+
+// the IDENTIFY body an nsqd sends
+type verifC14Identify struct {
+	BroadcastAddress string `json:"broadcast_address"`
+	Hostname         string `json:"hostname"`
+	TCPPort          int    `json:"tcp_port"`
+	HTTPPort         int    `json:"http_port"`
+	Version          string `json:"version"`
+}
 
 type verifC14Body struct{}
 
@@ -183,6 +236,11 @@ type verifC14World struct {
 	life  time.Duration
 	peers [verifC14NP]verifC14Peer
 	m     verifC14Model
+	// vacuity witnesses: wit = the number of operations a history of this harness can contain
+	// (a witness that needs more operations than that is not demanded)
+	wit int
+	// >= 0: operations take only this topic as operand (quick-tier slice of the step harnesses)
+	onlyTopic int
 	// what happened (for the vacuity witnesses)
 	sawEphemeralRemoved bool
 	sawDisconnect       bool
@@ -197,14 +255,14 @@ func verifC14NewWorld() *verifC14World {
 	// the thresholds). Wrap-around of huge durations is outside the claim. Thresholds are drawn
 	// from an unsigned type, so no Assume - and no solver call - is needed to range them.
 	var inact, life time.Duration
-	if verifrt.Bound("clockStepBits", 13, 29) == 13 {
+	if verifrt.Bound("clockStepBits", 5, 13) == 5 {
+		verifrt.ClockSteps(5)
+		inact = time.Duration(verifrt.Byte("inactiveProducerTimeout"))
+		life = time.Duration(verifrt.Byte("tombstoneLifetime"))
+	} else {
 		verifrt.ClockSteps(13)
 		inact = time.Duration(verifrt.Uint16("inactiveProducerTimeout"))
 		life = time.Duration(verifrt.Uint16("tombstoneLifetime"))
-	} else {
-		verifrt.ClockSteps(29)
-		inact = time.Duration(verifrt.Uint32("inactiveProducerTimeout"))
-		life = time.Duration(verifrt.Uint32("tombstoneLifetime"))
 	}
 	verifrt.ClockRange(1<<60, 1<<61)
 	opts := &Options{
@@ -213,64 +271,103 @@ func verifC14NewWorld() *verifC14World {
 		InactiveProducerTimeout: inact,
 		TombstoneLifetime:       life,
 	}
-	l := &NSQLookupd{opts: opts, DB: NewRegistrationDB()}
+	l := &NSQLookupd{opts: opts, DB: NewRegistrationDB(),
+		tcpListener: verifC14Listener{4160}, httpListener: verifC14Listener{4161}}
 	return &verifC14World{
 		l:     l,
 		p:     &LookupProtocolV1{nsqlookupd: l},
 		s:     &httpServer{nsqlookupd: l},
 		inact: inact,
 		life:  life,
+
+		onlyTopic: -1,
+	}
+}
+
+func (w *verifC14World) reach(needOps int, label string, cond bool) {
+	if w.wit >= needOps {
+		verifrt.Reach(label, cond)
 	}
 }
 
 func verifC14Clock() int64 { return verifrt.Now().UnixNano() }
 
-// connect: a new nsqd connection that has completed IDENTIFY. The IDENTIFY body is JSON
-// (reflection), so the state IDENTIFY leaves behind is created directly: peer info with the
-// connection's remote address as id, last update = now, and the "client" registration.
-// (VerifC14_Identify runs the real IDENTIFY handler against this description.)
+// send hands one chunk of the peer's byte stream to the connection's IOLoop and waits until the
+// loop has digested it: it either waits for more input (true) or has returned (false).
+func (w *verifC14World) send(p int, chunk []byte) (alive bool) {
+	c := w.peers[p].conn
+	c.in <- chunk
+	return <-c.ev == verifC14Idle
+}
+
+// connect: a new nsqd connection; the real IOLoop starts and the peer's first command is a
+// well-formed IDENTIFY (real handler; the JSON body goes through the engine's encoding/json
+// contract model symbolically and through the real decoder natively).
 func (w *verifC14World) connect(p int) {
 	addr := "10.0.0.1:5000"
 	if p == 1 {
 		addr = "10.0.0.2:5000"
 	}
-	conn := &verifC14Conn{addr: addr}
+	conn := &verifC14Conn{addr: addr, in: make(chan []byte), ev: make(chan int)}
 	client := NewClientV1(conn)
-	info := &PeerInfo{
-		id:               addr,
-		RemoteAddress:    addr,
-		Hostname:         verifC14Host(p),
+	w.peers[p] = verifC14Peer{conn: conn, client: client}
+	verifrt.Go("ioloop", func() {
+		w.p.IOLoop(client)
+		conn.ev <- verifC14Gone
+	})
+	first := <-conn.ev
+	verifrt.Assert(first == verifC14Idle, "ioloop-waits-for-the-first-command")
+	body, _ := json.Marshal(verifC14Identify{
 		BroadcastAddress: verifC14Host(p),
+		Hostname:         verifC14Host(p),
 		TCPPort:          4150,
 		HTTPPort:         4151,
 		Version:          "1.3.0",
+	})
+	n := len(body)
+	wire := append([]byte("IDENTIFY\n"), byte(n>>24), byte(n>>16), byte(n>>8), byte(n))
+	wire = append(wire, body...)
+	t0 := verifC14Clock()
+	alive := w.send(p, wire)
+	t1 := verifC14Clock()
+	_, answered := conn.takeFrame()
+	verifrt.Assert(alive && answered, "identify-accepted-and-answered")
+	info := client.peerInfo
+	verifrt.Assert(info != nil, "identify-records-the-peer")
+	if info != nil {
+		verifrt.Assert(info.BroadcastAddress == verifC14Host(p) && info.Hostname == verifC14Host(p) &&
+			info.TCPPort == 4150 && info.HTTPPort == 4151 && info.Version == "1.3.0" &&
+			info.RemoteAddress == addr, "identify-records-the-announced-fields")
 	}
-	now := verifC14Clock()
-	info.lastUpdate = now
-	client.peerInfo = info
-	w.l.DB.AddProducer(Registration{"client", "", ""}, &Producer{peerInfo: info})
-	w.peers[p] = verifC14Peer{conn: conn, client: client, info: info}
+	w.peers[p].info = info
 	w.m.conn[p] = true
-	w.m.lu[p] = verifC14Iv{now, now}
+	w.m.lu[p] = verifC14Iv{t0, t1}
 }
 
-// exec runs one protocol command of peer p through the real Exec. As in IOLoop, a fatal error
-// ends the connection (the real exit path runs).
-func (w *verifC14World) exec(p int, params []string) (resp []byte, err error, fatal bool) {
-	resp, err = w.p.Exec(w.peers[p].client, nil, params)
-	if err != nil {
-		if _, ok := err.(*protocol.FatalClientErr); ok {
-			w.sawFatal = true
-			w.disconnect(p)
-			return resp, err, true
-		}
+// exec sends one protocol command line of peer p through the real IOLoop and returns the
+// response frame. If the loop ended the connection (fatal error), alive is false and the model
+// forgets the peer - without any further call into the code under test.
+func (w *verifC14World) exec(p int, line string) (resp []byte, alive bool) {
+	alive = w.send(p, []byte(line+"\n"))
+	resp, _ = w.peers[p].conn.takeFrame()
+	if !alive {
+		w.sawFatal = true
+		w.forget(p)
 	}
-	return resp, err, false
+	return resp, alive
 }
 
-// disconnect: the connection ends; the real IOLoop sees EOF and runs its exit path.
+// disconnect: the peer hangs up; the real IOLoop sees EOF and runs its exit path.
 func (w *verifC14World) disconnect(p int) {
-	w.p.IOLoop(w.peers[p].client)
+	c := w.peers[p].conn
+	close(c.in)
+	last := <-c.ev
+	verifrt.Assert(last == verifC14Gone, "ioloop-returns-on-eof")
+	w.forget(p)
+}
+
+// forget: the model's view of "the connection of peer p has ended"
+func (w *verifC14World) forget(p int) {
 	w.sawDisconnect = true
 	m := &w.m
 	m.conn[p] = false
@@ -304,12 +401,12 @@ func (w *verifC14World) implChanKey(t, c int) bool {
 
 // c < 0: no channel
 func (w *verifC14World) register(p, t, c int) {
-	params := []string{"REGISTER", verifC14Topic(t)}
+	line := "REGISTER " + verifC14Topic(t)
 	if c >= 0 {
-		params = append(params, verifC14Chan(c))
+		line += " " + verifC14Chan(c)
 	}
-	resp, err, _ := w.exec(p, params)
-	verifrt.Assert(err == nil && string(resp) == "OK", "register-valid-names-accepted")
+	resp, alive := w.exec(p, line)
+	verifrt.Assert(alive && string(resp) == "OK", "register-valid-names-accepted")
 	m := &w.m
 	if !m.rt[t][p] {
 		m.rt[t][p] = true
@@ -323,12 +420,12 @@ func (w *verifC14World) register(p, t, c int) {
 }
 
 func (w *verifC14World) unregister(p, t, c int) {
-	params := []string{"UNREGISTER", verifC14Topic(t)}
+	line := "UNREGISTER " + verifC14Topic(t)
 	if c >= 0 {
-		params = append(params, verifC14Chan(c))
+		line += " " + verifC14Chan(c)
 	}
-	resp, err, _ := w.exec(p, params)
-	verifrt.Assert(err == nil && string(resp) == "OK", "unregister-valid-names-accepted")
+	resp, alive := w.exec(p, line)
+	verifrt.Assert(alive && string(resp) == "OK", "unregister-valid-names-accepted")
 	m := &w.m
 	if c >= 0 {
 		was := m.rc[t][c][p]
@@ -370,18 +467,26 @@ func (w *verifC14World) unregister(p, t, c int) {
 }
 
 func (w *verifC14World) ping(p int) {
-	t0 := verifrt.LastNow()
-	resp, err, _ := w.exec(p, []string{"PING"})
-	t1 := verifrt.LastNow()
-	verifrt.Assert(err == nil && string(resp) == "OK", "ping-answers-ok")
+	t0 := verifC14Clock()
+	resp, alive := w.exec(p, "PING")
+	t1 := verifC14Clock()
+	verifrt.Assert(alive && string(resp) == "OK", "ping-answers-ok")
 	w.m.lu[p] = verifC14Iv{t0, t1}
 }
 
-// a second IDENTIFY on an identified connection: E_INVALID, fatal, the connection ends
-func (w *verifC14World) identifyAgain(p int) {
-	_, err, fatal := w.exec(p, []string{"IDENTIFY"})
-	fe, isFatal := err.(*protocol.FatalClientErr)
-	verifrt.Assert(fatal && isFatal && fe.Code == "E_INVALID", "second-identify-is-fatal-E_INVALID")
+// a protocol violation by an identified peer: the server answers E_... and ends the connection
+// (variant 0: IDENTIFY again, 1: unknown command, 2: REGISTER with an invalid channel name)
+func (w *verifC14World) violate(p int, variant int) {
+	line, want := "IDENTIFY", "E_INVALID"
+	switch variant {
+	case 1:
+		line = "BOGUS x"
+	case 2:
+		line, want = "REGISTER t bad$name", "E_BAD_CHANNEL"
+	}
+	resp, alive := w.exec(p, line)
+	verifrt.Assert(!alive, "protocol-violation-ends-the-connection")
+	verifrt.Assert(len(resp) >= len(want) && string(resp[:len(want)]) == want, "protocol-violation-error-code")
 }
 
 func verifC14ErrCode(err error) int {
@@ -443,10 +548,10 @@ func (w *verifC14World) deleteChannel(t, c int) {
 }
 
 func (w *verifC14World) tombstone(t, node int) {
-	t0 := verifrt.LastNow()
+	t0 := verifC14Clock()
 	data, err := w.s.doTombstoneTopicProducer(nil,
 		verifC14Req("topic="+verifC14Esc(verifC14Topic(t))+"&node="+verifC14Node(node)), nil)
-	t1 := verifrt.LastNow()
+	t1 := verifC14Clock()
 	verifrt.Assert(data == nil && err == nil, "tombstone-ok")
 	m := &w.m
 	for p := 0; p < verifC14NP; p++ {
@@ -524,13 +629,13 @@ func (w *verifC14World) checkChannels(t int) {
 }
 
 func (w *verifC14World) checkLookup(t int) {
-	q0 := verifrt.LastNow()
+	q0 := verifC14Clock()
 	data, err := w.s.doLookup(nil, verifC14Req("topic="+verifC14Esc(verifC14Topic(t))), nil)
-	q1 := verifrt.LastNow()
+	q1 := verifC14Clock()
 	m := &w.m
 	if !m.tkey[t] {
 		verifrt.Assert(data == nil && verifC14ErrCode(err) == 404, "lookup-unknown-topic-is-404")
-		verifrt.Reach("lookup-404", true)
+		w.reach(1, "lookup-404", true)
 		return
 	}
 	verifrt.Assert(err == nil, "lookup-known-topic-found")
@@ -572,21 +677,21 @@ func (w *verifC14World) checkLookup(t int) {
 			verifrt.Assert(!must, "lookup-lists-live-registered-producer")
 		}
 		hasTomb := m.tomb[t][p]
-		verifrt.Reach("lookup-producer-listed", listed)
+		w.reach(2, "lookup-producer-listed", listed)
 		if !listed {
 			hiddenByTomb := tombed && act
 			hiddenByInactivity := inactive && !hasTomb
-			verifrt.Reach("lookup-producer-hidden-by-tombstone", hiddenByTomb)
-			verifrt.Reach("lookup-producer-hidden-by-inactivity", hiddenByInactivity)
+			w.reach(3, "lookup-producer-hidden-by-tombstone", hiddenByTomb)
+			w.reach(2, "lookup-producer-hidden-by-inactivity", hiddenByInactivity)
 		}
-		verifrt.Reach("lookup-tombstone-lapsed", listed && hasTomb)
+		w.reach(3, "lookup-tombstone-lapsed", listed && hasTomb)
 	}
 }
 
 func (w *verifC14World) checkNodes() {
-	q0 := verifrt.LastNow()
+	q0 := verifC14Clock()
 	data, err := w.s.doNodes(nil, verifC14Req(""), nil)
-	q1 := verifrt.LastNow()
+	q1 := verifC14Clock()
 	verifrt.Assert(err == nil, "nodes-ok")
 	mp, _ := data.(map[string]interface{})
 	nodes, ok := mp["producers"].([]*node)
@@ -624,9 +729,9 @@ func (w *verifC14World) checkNodes() {
 			notTombed, tombed := w.notTombstonedSurely(t, p, q0), w.tombstonedSurely(t, p, q1)
 			wrongSet := flag && notTombed
 			wrongClear := !flag && tombed
-			verifrt.Assert(!wrongSet, "nodes-tombstone-flag-only-for-tombstoned-topic")
-			verifrt.Assert(!wrongClear, "nodes-tombstone-flag-set-for-tombstoned-topic")
-			verifrt.Reach("nodes-tombstone-flag-set", flag)
+			wrong := wrongSet || wrongClear
+			verifrt.Assert(!wrong, "nodes-tombstone-flag-iff-topic-tombstoned")
+			w.reach(3, "nodes-tombstone-flag-set", flag)
 		}
 		for t := 0; t < verifC14NT; t++ {
 			if m.conn[p] && m.rt[t][p] {
@@ -649,8 +754,8 @@ func (w *verifC14World) checkNodes() {
 		} else {
 			verifrt.Assert(!w.activeSurely(p, q1), "nodes-lists-active-node")
 		}
-		verifrt.Reach("nodes-node-listed", listed)
-		verifrt.Reach("nodes-node-hidden-by-inactivity", !listed)
+		w.reach(1, "nodes-node-listed", listed)
+		w.reach(1, "nodes-node-hidden-by-inactivity", !listed)
 	}
 }
 
